@@ -793,9 +793,10 @@ static void c18_acf(vr_rng *r)
         char *buf = NULL; size_t bl = 0; FILE *mf = open_memstream(&buf, &bl); cmb_dataset_correlogram_print(d, mf, lags, (double *)cf); fclose(mf);
         unsigned seen = 0; char *save = NULL; bool beyond = false;
         for (char *ln = strtok_r(buf, "\n", &save); ln && vr_nviol == 0; ln = strtok_r(NULL, "\n", &save)) {
-            unsigned lag = 0; double val = 0; if (sscanf(ln, "%u %lf", &lag, &val) != 2 || lag != seen + 1) continue;
+            unsigned lag = 0; double val = 0; int used = 0; if (sscanf(ln, "%u %lf%n", &lag, &val, &used) < 2 || lag != seen + 1) continue;
             seen++; double a = fabs(cf[lag]); if (a > 1.0) { a = 1.0; beyond = true; }
             unsigned full = 0; for (const char *c = ln; *c; c++) if (*c == '#') full++;
+            { size_t len = strlen(ln); const char *bar = strchr(ln, '|'); if (len > 100 || !bar || (size_t)(bar - ln) != (size_t)used + 1 + 33) vr_violation("C18/correlogram-layout", "%s correlogram, lag %u (coefficient %.6g): line of %zu characters with the axis at column %zd (expected 33 columns after the number, which ends at %d)", which ? "PACF" : "ACF", lag, cf[lag], len, bar ? bar - ln : -1, used); }
             if (full != (unsigned)floor(33.0 * a)) vr_violation("C18/correlogram-bar", "%s correlogram, lag %u: coefficient %.6g drawn with %u full characters, expected %u of 33", which ? "PACF" : "ACF", lag, cf[lag], full, (unsigned)floor(33.0 * a));
         }
         if (vr_nviol == 0 && seen != lags) vr_violation("C18/correlogram-lines", "%s correlogram of %u lags has %u lag lines", which ? "PACF" : "ACF", lags, seen);
